@@ -10,6 +10,8 @@ import time
 import common
 import ir
 
+SPEC_VERDICTS = {0: "spec-agrees", 11: "spec-accepts/impl-rejects", 12: "spec-checked-error/impl-accepts",
+                 13: "spec-trace-differs", 14: "spec-checked-error/impl-internal", 18: "spec-fuel", 19: "spec-silent"}
 VERDICTS = {0: "agree", 1: "validate-class", 2: "unroll-class", 3: "statements", 4: "counts", 5: "depth",
             8: "fuel", 9: "unmodelled"}
 
@@ -106,7 +108,7 @@ HEADER = ("From Coq Require Import ZArith List String PrimFloat.\n"
           "Import ListNotations.\nOpen Scope string_scope.\n")
 
 
-def evaluate(outcomes, shard=200, tag="cases"):
+def evaluate(outcomes, shard=200, tag="cases", strict=False):
     """returns list of verdict codes aligned with outcomes (None = could not be converted / load failed)"""
     d = common.run_dir()
     terms, idx = [], []
@@ -125,8 +127,10 @@ def evaluate(outcomes, shard=200, tag="cases"):
             fh.write(HEADER)
             fh.write("Definition cases : list case :=\n [%s].\n" % ";\n  ".join(terms[k:k + shard]))
             fh.write("Eval vm_compute in (map check_case cases).\n")
+            fh.write("Eval vm_compute in (map (spec_case %s) cases).\n" % ("true" if strict else "false"))
         files.append(f)
     verdicts = [None] * len(outcomes)
+    spec_verdicts = [None] * len(outcomes)
     procs = []
     pending = list(enumerate(files))
     results = {}
@@ -153,15 +157,18 @@ def evaluate(outcomes, shard=200, tag="cases"):
         if rc != 0:
             errors.append((f, se[-800:]))
             continue
-        body = so.split("=", 1)[1] if "=" in so else ""
-        body = body.split(":")[0]
-        codes = [int(x) for x in re.findall(r"\d+", body)]
+        parts = so.split("= [")
         chunk = idx[k * shard:(k + 1) * shard]
-        if len(codes) != len(chunk):
-            errors.append((f, "parsed %d codes for %d cases" % (len(codes), len(chunk))))
+        lists = []
+        for part in parts[1:3]:
+            lists.append([int(x) for x in re.findall(r"\d+", part.split("]")[0])])
+        if len(lists) != 2 or len(lists[0]) != len(chunk) or len(lists[1]) != len(chunk):
+            errors.append((f, "parsed %s codes for %d cases" % ([len(l) for l in lists], len(chunk))))
             continue
-        for i, c in zip(chunk, codes):
+        for i, c, sc in zip(chunk, lists[0], lists[1]):
             verdicts[i] = c
+            spec_verdicts[i] = sc
+    evaluate.last_spec = spec_verdicts
     return verdicts, errors
 
 
